@@ -29,6 +29,22 @@ Clause ids
     C05.rejection          low_hz < 0, or high_hz > 0 with high_hz <= low_hz or high_hz > rate/2 + 1: the constructor
                            raises ValueError (run under np.errstate(raise) so that an arithmetic accident such as
                            int(nan) after 0/0 does not pass for a rejection)
+    C05.request_independence
+                           the statement quantifies over all filter indices and DFT widths of one bank, so what a bank
+                           returns for (filter, width, half) may not depend on what the same OBJECT was asked before.
+                           Case kind "session": a list of requests [op, width, half] (op = freq / trunc / imp) is made in
+                           order on one bank object -- pairs of requests whose outputs have the same length ((2m, half)
+                           vs (m+1, full), (2m-1, half) vs (m, full)) in both orders, the same width with both `half`
+                           flags, repeats, truncated and impulse responses in between, earlier requests again at the end
+                           in a seeded order.  Every answer is checked against the oracle of the clauses above where one
+                           applies at that width (triangle at every bin, also for the spectrum rebuilt from the truncated
+                           response by the documented recipe; for Gabor / gammatone filters whose support spans < rate/2:
+                           no bin exceeds the gain at the bin next to the centre by more than 2*THRESHOLD and, without
+                           scale_l2_norm, no bin exceeds 1 + 2*THRESHOLD; L2 norm of an impulse response in a buffer of
+                           >= 4 x support) -- failures there carry the ordinary clause id -- and is compared with the answer
+                           of a bank built freshly for that single request (bit-identical, A-DET).  Arrays handed out
+                           earlier must not be changed by, nor share memory with, later answers, and overwriting a
+                           returned array must not change later answers.
 """
 import math
 import time
@@ -233,23 +249,54 @@ def _tri_value(f, l, m, r):
     return (r - f) / (r - m)
 
 
+def _triangle_mismatch(got, bank, spec, k, W, nbins):
+    """Compare the first `nbins` bins of a width-W response of filter k with the documented triangle.
+    Returns (message or None, saw a positive expected value, worst abs error)."""
+    rate = spec["rate"]
+    is_fbank = spec["bank"] == "fbank"
+    mel = _scale_fns({"name": "mel"})[0]
+    real = not spec.get("analytic", False)
+    l, r = (float(x) for x in bank.supports_hz[k])
+    m = float(bank.centers_hz[k])
+    positive, worst = False, 0.0
+    for b in range(nbins):
+        bb = b
+        if real and 2 * b > W:
+            bb = W - b  # mirrored negative frequency of a real filter
+        f = rate * bb / W
+        if is_fbank:
+            exp2 = _tri_value(mel(f), mel(l), mel(m), mel(r)) if l < f < r else 0.0
+            exp = math.sqrt(exp2)
+        else:
+            exp2 = None
+            exp = _tri_value(f, l, m, r)
+        g = float(got[b])
+        if exp > 0:
+            positive = True
+        err = abs(g - exp)
+        ok = err <= TOL_TRI
+        if not ok and is_fbank and math.isfinite(g) and g >= 0:
+            # sqrt is ill-conditioned at a vertex: compare the squares there
+            ok = abs(g * g - exp2) <= 1e-12
+            err = 0.0 if ok else err
+        if math.isfinite(err):
+            worst = max(worst, err)
+        if not ok:
+            return f"filter {k} width {W} bin {b} ({f:.6f} Hz): response {g!r}, documented triangle ({l:.6f},{m:.6f},{r:.6f}) gives {exp!r}", True, worst
+    return None, positive, worst
+
+
 def _check_triangle(case):
     """tri / Fbank: full response at `width` equals the documented triangle at every bin."""
     F, S, config = _mods()
     spec, W = case["bank"], int(case["width"])
-    rate = spec["rate"]
     try:
         bank = _build(F, S, spec)
     except Exception as e:
         return [("C05.edge_spacing", f"constructor raised {type(e).__name__}: {e}")], True, {}
-    is_fbank = spec["bank"] == "fbank"
-    mel = _scale_fns({"name": "mel"})[0]
-    real = not spec.get("analytic", False)
     nontrivial = False
     worst = 0.0
     for k in range(bank.num_filts):
-        l, r = (float(x) for x in bank.supports_hz[k])
-        m = float(bank.centers_hz[k])
         with warnings.catch_warnings():
             warnings.simplefilter("ignore")
             try:
@@ -262,34 +309,11 @@ def _check_triangle(case):
             if np.abs(got.imag).max() > 0:
                 return [("C05.triangle_values", f"filter {k} width {W}: zero-phase triangle has an imaginary part")], True, {}
             got = got.real
-        for b in range(W):
-            bb = b
-            if real and 2 * b > W:
-                bb = W - b  # mirrored negative frequency of a real filter
-            f = rate * bb / W
-            if is_fbank:
-                exp2 = _tri_value(mel(f), mel(l), mel(m), mel(r)) if l < f < r else 0.0
-                exp = math.sqrt(exp2)
-            else:
-                exp2 = None
-                exp = _tri_value(f, l, m, r)
-            g = float(got[b])
-            if exp > 0:
-                nontrivial = True
-            err = abs(g - exp)
-            ok = err <= TOL_TRI
-            if not ok and is_fbank and math.isfinite(g) and g >= 0:
-                # sqrt is ill-conditioned at a vertex: compare the squares there
-                ok = abs(g * g - exp2) <= 1e-12
-                err = 0.0 if ok else err
-            if math.isfinite(err):
-                worst = max(worst, err)
-            if not ok:
-                return (
-                    [("C05.triangle_values", f"filter {k} width {W} bin {b} ({f:.6f} Hz): response {g!r}, documented triangle ({l:.6f},{m:.6f},{r:.6f}) gives {exp!r}")],
-                    True,
-                    {},
-                )
+        msg, positive, w = _triangle_mismatch(got, bank, spec, k, W, W)
+        nontrivial = nontrivial or positive
+        worst = max(worst, w)
+        if msg is not None:
+            return [("C05.triangle_values", msg)], True, {}
     return [], nontrivial, {"worst_abs": worst}
 
 
@@ -473,7 +497,250 @@ def _check_reject(case):
     return [], False, {"raised": None}
 
 
-_KINDS = {"layout": _check_layout, "triangle": _check_triangle, "response": _check_response, "reject": _check_reject}
+def _half_len(W):
+    """Documented length of the half=True response."""
+    return W // 2 + 1 if W % 2 == 0 else (W + 1) // 2
+
+
+def _same(a, b):
+    a, b = np.asarray(a), np.asarray(b)
+    return a.dtype == b.dtype and a.shape == b.shape and bool(np.array_equal(a, b))
+
+
+def _request(bank, k, op, W, half):
+    """One request of a session -> tuple of arrays as returned by the library."""
+    with warnings.catch_warnings():
+        warnings.simplefilter("ignore")
+        if op == "freq":
+            return (np.asarray(bank.get_frequency_response(k, W, half=bool(half))),)
+        if op == "imp":
+            return (np.asarray(bank.get_impulse_response(k, W)),)
+        if op == "trunc":
+            st, tr = bank.get_truncated_response(k, W)
+            return (np.asarray(int(st)), np.asarray(tr))
+    raise ValueError(op)
+
+
+def _check_session(case):
+    """Many requests on ONE bank object, each checked against the oracle and against a fresh bank (see module doc).
+    A request is [op, width, half] or [op, width, half, filter]; the filter defaults to case["filt"]."""
+    F, S, config = _mods()
+    thr = float(config.EFFECTIVE_SUPPORT_THRESHOLD)
+    spec, k0 = case["bank"], int(case["filt"])
+    ops = [(str(o[0]), int(o[1]), bool(o[2]) if len(o) > 2 else False, int(o[3]) if len(o) > 3 else k0) for o in case["ops"]]
+    rate = spec["rate"]
+    kind = spec["bank"]
+    compact = kind in ("tri", "fbank")
+    real = compact and not spec.get("analytic", False)
+    l2 = bool(spec.get("l2", False)) and not compact
+    try:
+        bank = _build(F, S, spec)
+    except Exception as e:
+        return [("C05.edge_spacing", f"constructor raised {type(e).__name__}: {e}")], True, {}
+    verts, edges, centres = _expected_layout(spec)
+    twin_spans = {}
+    ctxs = {}
+
+    def ctx(k):
+        if k not in ctxs:
+            s_lo, s_hi = (float(x) for x in bank.supports_hz[k])
+            own = s_hi - s_lo < rate / 2.0
+            t_lo, t_hi = (int(x) for x in bank.supports[k])
+            l2_ok = own
+            if l2 and not own:  # as in the response clause: the restriction is also evaluated on the unit-gain twin
+                try:
+                    if not twin_spans:
+                        twin_spans["s"] = [(float(x), float(y)) for x, y in _build(F, S, dict(spec, l2=False)).supports_hz]
+                    x, y = twin_spans["s"][k]
+                    l2_ok = y - x < rate / 2.0
+                except Exception:
+                    l2_ok = False
+            ctxs[k] = {"centre": centres[k], "own": own, "l2_ok": l2_ok, "tlen": t_hi - t_lo + 1}
+        return ctxs[k]
+
+    fails, info = [], {"requests": len(ops), "oracle_checked": 0}
+    history, held = [], []
+
+    def show(o, w, h, k):
+        return f"{o}({k},{w}{',half' if h else ''})"
+
+    def hist():
+        return ", ".join(show(*x) for x in history[-6:]) or "nothing"
+
+    def label(op, W, half, k):
+        return f"request #{len(history)} {op}(filter {k}, width {W}{', half=True' if half else ''}) on a bank that already answered [{hist()}]"
+
+    def smooth_peak(mags, W, k, what):
+        """Gabor / gammatone filter whose support spans < rate/2: the bin next to the centre carries the maximum."""
+        c = ctx(k)
+        centre = c["centre"]
+        b0 = int(round(centre * W / rate))
+        if not c["own"] or b0 >= len(mags) or not len(mags):
+            return
+        info["oracle_checked"] += 1
+        top = float(mags.max())
+        j = int(np.argmax(mags))
+        scale = top if l2 else 1.0
+        if not np.all(np.isfinite(mags)):
+            fails.append(("C05.peak_gain", f"{what}: non-finite values"))
+        elif top - float(mags[b0]) > 2 * thr * scale:
+            fails.append(("C05.peak_gain", f"{what}: |H| is largest ({top!r}) at bin {j} = {rate * j / W:.3f} Hz, not next to the centre {centre:.3f} Hz (bin {b0}, |H| = {float(mags[b0])!r})"))
+        elif not l2 and top > 1.0 + 2 * thr:
+            fails.append(("C05.peak_gain", f"{what}: gain {top!r} at bin {j} exceeds the documented peak gain 1 by more than {2 * thr}"))
+
+    def oracle(op, W, half, k, got):
+        what = label(op, W, half, k)
+        hl = _half_len(W)
+        if op == "freq":
+            a = got[0]
+            want = hl if half else W
+            if a.shape != (want,):
+                fails.append(("C05.triangle_values" if compact else "C05.peak_gain", f"{what}: shape {a.shape}, documented length {want}"))
+                return
+            if compact:
+                if np.iscomplexobj(a):
+                    if np.abs(a.imag).max() > 0:
+                        fails.append(("C05.triangle_values", f"{what}: zero-phase triangle has an imaginary part"))
+                        return
+                    a = a.real
+                msg, positive, w = _triangle_mismatch(a, bank, spec, k, W, want)
+                info["oracle_checked"] += 1
+                info["worst_abs"] = max(info.get("worst_abs", 0.0), w)
+                if msg is not None:
+                    fails.append(("C05.triangle_values", f"{what}: {msg}"))
+            else:
+                smooth_peak(np.abs(a), W, k, what)
+        elif op == "trunc":
+            st, tr = int(got[0]), got[1]
+            if tr.ndim != 1 or not (0 <= st < W):
+                fails.append(("C05.triangle_values" if compact else "C05.peak_gain", f"{what}: start bin {st}, truncated response of shape {tr.shape}"))
+                return
+            # the documented recipes of get_truncated_response
+            try:
+                if real:
+                    rebuilt = np.zeros(hl, dtype=tr.dtype)
+                    rebuilt[st : st + len(tr)] = tr
+                    n = hl
+                else:
+                    rebuilt = np.zeros(W, dtype=tr.dtype)
+                    wrap = min(st + len(tr), W) - st
+                    rebuilt[st : st + wrap] = tr[:wrap]
+                    rebuilt[: len(tr) - wrap] = tr[wrap:]
+                    n = W
+            except Exception as e:
+                fails.append(("C05.triangle_values" if compact else "C05.peak_gain", f"{what}: the documented recipe cannot be applied (start {st}, length {len(tr)}): {type(e).__name__}: {e}"))
+                return
+            if compact:
+                msg, positive, w = _triangle_mismatch(np.real(rebuilt), bank, spec, k, W, n)
+                info["oracle_checked"] += 1
+                if msg is not None:
+                    fails.append(("C05.triangle_values", f"{what}: spectrum rebuilt from the truncated response: {msg}"))
+            else:
+                smooth_peak(np.abs(rebuilt), W, k, what + " (spectrum rebuilt from the truncated response)")
+        elif op == "imp":
+            a = got[0]
+            c = ctx(k)
+            if a.shape != (W,):
+                fails.append(("C05.l2_norm", f"{what}: shape {a.shape}"))
+            elif not np.all(np.isfinite(a)):
+                fails.append(("C05.l2_norm", f"{what}: non-finite values"))
+            elif l2 and c["l2_ok"] and W >= 4 * c["tlen"]:
+                norm = float(np.sqrt(np.sum(np.abs(a) ** 2)))
+                info["oracle_checked"] += 1
+                info["l2_norm"] = norm if abs(norm - 1) > abs(info.get("l2_norm", 1.0) - 1) else info.get("l2_norm", norm)
+                if not (abs(norm - 1.0) <= TOL_REL):
+                    fails.append(("C05.l2_norm", f"{what}: impulse response has L2 norm {norm!r}, not 1 within {TOL_REL}"))
+
+    def one(op, W, half, k):
+        try:
+            got = _request(bank, k, op, W, half)
+        except Exception as e:
+            fails.append(("C05.request_independence", f"{label(op, W, half, k)} raised {type(e).__name__}: {e}"))
+            history.append((op, W, half, k))
+            return
+        oracle(op, W, half, k, got)
+        try:
+            fresh = _request(_build(F, S, spec), k, op, W, half)
+        except Exception as e:
+            fresh = None
+            fails.append(("C05.request_independence", f"a fresh bank raised {type(e).__name__} on {show(op, W, half, k)}: {e}"))
+        if fresh is not None:
+            for a, b in zip(got, fresh):
+                if not _same(a, b):
+                    if a.shape == b.shape and a.ndim == 1 and a.size:
+                        j = int(np.argmax(np.abs(a - b)))
+                        where = f"index {j}: {a[j]!r} vs {b[j]!r}"
+                    else:
+                        where = f"shape/dtype {a.shape}/{a.dtype} vs {b.shape}/{b.dtype}, values {a!r:.50} vs {b!r:.50}"
+                    fails.append(("C05.request_independence", f"{label(op, W, half, k)} differs from the answer of a freshly built bank ({where})"))
+                    break
+        for a in got:
+            if a.ndim == 1:
+                held.append((f"{show(op, W, half, k)} #{len(history)}", a, a.copy()))
+        history.append((op, W, half, k))
+
+    for o in ops:
+        one(*o)
+        if len(fails) > 8:
+            break
+    for d, a, c in held:
+        if not _same(a, c):
+            fails.append(("C05.request_independence", f"the array returned by {d} was changed by a later call"))
+            break
+    clash = None
+    for i in range(len(held)):
+        for j in range(i + 1, len(held)):
+            if np.may_share_memory(held[i][1], held[j][1]) and np.shares_memory(held[i][1], held[j][1]):
+                clash = (held[i][0], held[j][0])
+                break
+        if clash:
+            fails.append(("C05.request_independence", f"the arrays returned by {clash[0]} and {clash[1]} share memory"))
+            break
+    if len(fails) <= 8:
+        # overwrite everything that was handed out and ask the distinct requests once more
+        for d, a, c in held:
+            if a.flags.writeable:
+                a[...] = np.nan if a.dtype.kind in "fc" else 0
+        seen = []
+        for o in ops:
+            if o not in seen:
+                seen.append(o)
+        history.append(("<all returned arrays overwritten>", 0, False, -1))
+        for o in seen[:12]:
+            one(*o)
+    seen, out = set(), []
+    for c, m in fails:
+        if c not in seen:
+            seen.add(c)
+            out.append((c, m))
+    return out, info["oracle_checked"] > 0, info
+
+
+def _session_ops(rng, ms, k, k2=None, extra_imp=None, tail=12):
+    """The request list of a session (see module doc): for every m the equal-length pairs in both orders with
+    repeats, both `half` flags of the same widths, truncated / impulse responses in between, the same requests
+    for a second filter k2 interleaved; then a seeded selection of the earlier requests again."""
+    ops = []
+    for i, m in enumerate(ms):
+        m = int(m)
+        ops += [["freq", 2 * m, True, k], ["freq", m + 1, False, k], ["freq", 2 * m, True, k], ["freq", m + 1, False, k]]
+        if m >= 2:
+            ops += [["freq", m, False, k], ["freq", 2 * m - 1, True, k], ["freq", m, False, k]]
+        ops += [["freq", 2 * m, False, k], ["freq", m + 1, True, k]]
+        ops += [["trunc", 2 * m, False, k], ["trunc", m + 1, False, k], ["trunc", 2 * m, False, k], ["imp", m + 1, False, k], ["imp", 2 * m, False, k], ["imp", m + 1, False, k]]
+        if k2 is not None and k2 != k and i == 0:
+            ops += [["freq", 2 * m, True, k2], ["freq", m + 1, False, k2], ["freq", 2 * m, True, k], ["trunc", 2 * m, False, k2], ["imp", m + 1, False, k2], ["imp", m + 1, False, k], ["trunc", 2 * m, False, k]]
+    if extra_imp:
+        ops += [["imp", int(extra_imp), False, k], ["imp", int(extra_imp) + 1, False, k], ["imp", int(extra_imp), False, k]]
+    distinct = []
+    for o in ops:
+        if o not in distinct:
+            distinct.append(o)
+    ops += [distinct[i] for i in rng.permutation(len(distinct))[:tail]]
+    return ops
+
+
+_KINDS = {"layout": _check_layout, "triangle": _check_triangle, "response": _check_response, "reject": _check_reject, "session": _check_session}
 
 
 def _evaluate(case):
@@ -482,7 +749,7 @@ def _evaluate(case):
     except _OracleError:
         raise
     except Exception as e:  # an unexpected exception from the library is a failure of the clause family
-        clause = {"layout": "C05.edge_spacing", "triangle": "C05.triangle_values", "response": "C05.peak_gain", "reject": "C05.rejection"}[case["kind"]]
+        clause = {"layout": "C05.edge_spacing", "triangle": "C05.triangle_values", "response": "C05.peak_gain", "reject": "C05.rejection", "session": "C05.request_independence"}[case["kind"]]
         return [(clause, f"unexpected {type(e).__name__}: {e}")], True, {}
 
 
@@ -670,6 +937,31 @@ def run(tier, seed):
     resp_budget = 30 if quick else 330
     order = _interleave(grid, rng.permutation(len(grid)))
     picks = core + [grid[i] for i in order]
+    # 2a. sessions: many requests on one bank object (cheap; every bank class and flag set comes by within seconds)
+    t_sess = time.time()
+    sess_budget = 7 if quick else 60
+    n_sess = n_sess_req = 0
+    for i_spec, spec in enumerate(picks):
+        if time.time() - t_sess > sess_budget or col.too_many_failures():
+            break
+        try:
+            b = _build(*_mods()[:2], spec)
+            spans = [float(hi) - float(lo) for lo, hi in b.supports_hz]
+            sup = [int(hi) - int(lo) + 1 for lo, hi in b.supports]
+        except Exception:
+            continue  # reported by the layout / response kinds
+        n = spec["num_filts"]
+        narrow = [k for k in range(n) if spans[k] < spec["rate"] / 2.0]
+        pool = narrow or list(range(n))
+        k = pool[int(rng.integers(len(pool)))]
+        ms = [(256, 64, 128, 32)[i_spec % 4], int(rng.integers(3, 200)), int(rng.integers(2, 24))]
+        extra = 4 * sup[k] if (spec.get("l2") and 4 * sup[k] <= 4096) else None
+        k2 = pool[int(rng.integers(len(pool)))] if len(pool) > 1 else None
+        case = {"kind": "session", "bank": spec, "filt": k, "ops": _session_ops(rng, ms, k, k2=k2, extra_imp=extra)}
+        do(case)
+        n_sess += 1
+        n_sess_req += len(case["ops"])
+
     t_start = time.time()
     n_resp_banks = 0
     wcap = 16384 if quick else 65536
@@ -727,17 +1019,19 @@ def run(tier, seed):
         col.note("further failing cases not listed (same clause and bank class): " + ", ".join(f"{c}/{b}: {v}" for (c, b), v in sorted(extra.items())))
     col.note("measured worst slack: " + ", ".join(f"{k}={v:.3g}" for k, v in sorted(worst.items())))
     col.note("cases per kind (executed / non-trivial): " + ", ".join(f"{k} {a}/{b}" for k, (a, b) in sorted(kinds.items())))
+    col.note(f"sessions (one bank object, many requests, each also answered by a fresh bank): {n_sess} with {n_sess_req} requests in {sess_budget} s")
     col.note(f"banks visited: response {n_resp_banks}, layout grid {n_layout}/{len(grid)} + {n_rand} random, triangle {n_tri}/{len(tri_specs)}")
     return col.result(
         rule=(
             "one case per (kind, bank configuration[, filter | DFT width]); kinds: layout (constructor vs documented scale layout), "
             "triangle (all filters, all bins of one width), response (one filter: peak/gain, 3 dB crossing or ERB, L2 norm), reject "
-            "(constructor call).  Non-trivial: layout always; triangle if some bin has a positive expected value; response only if the "
+            "(constructor call), session (one filter of one bank OBJECT, a list of requests; non-trivial if at least one answer met an oracle of the clauses).  Non-trivial: layout always; triangle if some bin has a positive expected value; response only if the "
             "filter's supports_hz (for the L2 clause: or its unit-gain twin's) spans < rate/2 and the needed DFT width is under the cap; reject only if the statement calls the range bad"
         ),
         bound=(
             f"BOUNDED ({tier}): grid 4 banks x {len(SCALES_QUICK) + (0 if quick else len(SCALES_MORE))} scale instances x num_filts {NUM_FILTS} x rates {RATES} x 3 ranges x flags "
             f"({len(grid)} configurations, visited in seeded order within the time budget) + seeded random configurations; triangle widths {widths}; "
+            f"sessions of ~50 requests (DFT widths 2m, 2m-1, m+1, m for m in {{32..256}} and seeded m < 200) on the banks reached in {sess_budget} s; "
             f"response clauses on {'a subset of filters (ends, middle, 2 random) of' if quick else 'all filters of'} the banks reached in the budget, DFT width <= {wcap}"
         ),
         assumptions=ASSUMPTIONS,
